@@ -418,7 +418,7 @@ Definition apply_builtin (b : atom) (arg : value) : res value :=
     end
   else if b =? b_binary_length then
     match arg with VBin x => ret (VInt (Z.of_nat (length x))) | _ => Error (EStuck s_builtin_arg) end
-  else Error (EUnsupported u_builtin).
+  else Error (EUnsupported (- b)).   (* a negative site names the builtin *)
 
 (* ------------------------------------------------------------------------------------------
    Types (R14). *)
